@@ -2193,3 +2193,132 @@ Proof.
   intros H. destruct (forest_reads_back roots H 0%nat []) as (roots' & nx & Eu & E).
   exists nx, roots'. split; [|exact Eu]. unfold cp2k_read. rewrite E. reflexivity.
 Qed.
+
+(* ================================================================== extraction histories
+   (model/CodecM.v section G: dump_config / _extract_frame as operations on a directory) *)
+Section ExtractHistoryP.
+  Context {F : Type}.
+  Implicit Types (d : fx_dir F) (o : @fx_op) (ops : list fx_op).
+
+  Lemma fx_get_set_same d n c : fx_get (fx_set d n c) n = Some c.
+  Proof.
+    induction d as [|[m c0] r IH]; cbn [fx_set fx_get].
+    - now rewrite Nat.eqb_refl.
+    - destruct (Nat.eqb_spec m n) as [E|E]; cbn [fx_get].
+      + subst. now rewrite Nat.eqb_refl.
+      + destruct (Nat.eqb_spec m n); [contradiction|exact IH].
+  Qed.
+
+  Lemma fx_get_set_other d n c m : m <> n -> fx_get (fx_set d n c) m = fx_get d m.
+  Proof.
+    intros Hm. induction d as [|[j c0] r IH]; cbn [fx_set fx_get].
+    - destruct (Nat.eqb_spec n m); [congruence|reflexivity].
+    - destruct (Nat.eqb_spec j n) as [E|E]; cbn [fx_get].
+      + subst. destruct (Nat.eqb_spec n m); [congruence|reflexivity].
+      + destruct (Nat.eqb_spec j m); [reflexivity|exact IH].
+  Qed.
+
+  (* one extraction: the output holds exactly frame k of the source (as the source was
+     before the operation), every other file is untouched *)
+  Theorem fx_extract_spec d src k out d' : fx_extract d src k out = Some d' ->
+    exists f, fx_frame d src k = Some f /\ fx_get d' out = Some [f] /\ fx_read d' out = Some f /\
+              forall n, n <> out -> fx_get d' n = fx_get d n.
+  Proof.
+    unfold fx_extract. destruct (fx_frame d src k) as [f|]; [|discriminate].
+    cbn [option_map]. intros E. inversion E; subst. exists f. split; [reflexivity|].
+    split; [apply fx_get_set_same|]. split.
+    - unfold fx_read. now rewrite fx_get_set_same.
+    - intros n Hn. now apply fx_get_set_other.
+  Qed.
+
+  (* what the output held before (nothing, a stale frame, several frames, junk) is irrelevant *)
+  Theorem fx_old_content_irrelevant d src k out c n : src <> out ->
+    option_map (fun d' => fx_get d' n) (fx_extract (fx_set d out c) src k out) =
+    option_map (fun d' => fx_get d' n) (fx_extract d src k out).
+  Proof.
+    intros Hs. unfold fx_extract, fx_frame. rewrite fx_get_set_other by exact Hs.
+    destruct (fx_get d src) as [fs|]; [|reflexivity]. destruct (nth_error fs k) as [f|]; [|reflexivity].
+    cbn [option_map]. f_equal. destruct (Nat.eq_dec n out) as [->|Hn].
+    - now rewrite !fx_get_set_same.
+    - now rewrite !fx_get_set_other by exact Hn.
+  Qed.
+
+  Lemma fx_run_app ops1 : forall d ops2,
+    fx_run d (ops1 ++ ops2) = match fx_run d ops1 with Some d1 => fx_run d1 ops2 | None => None end.
+  Proof.
+    induction ops1 as [|o r IH]; intros d ops2; cbn [app fx_run]; [reflexivity|].
+    destruct (fx_step d o) as [d'|]; [apply IH|reflexivity].
+  Qed.
+
+  (* files no operation writes to keep their content *)
+  Theorem fx_run_untouched ops : forall d d' n, fx_run d ops = Some d' ->
+    Forall (fun o => o_out o <> n) ops -> fx_get d' n = fx_get d n.
+  Proof.
+    induction ops as [|o r IH]; intros d d' n E H; cbn [fx_run] in E.
+    - now inversion E.
+    - inversion H as [|? ? Ho Hr]; subst. destruct (fx_step d o) as [d1|] eqn:E1; [|discriminate].
+      rewrite (IH d1 d' n E Hr). unfold fx_step in E1.
+      destruct (fx_extract_spec _ _ _ _ _ E1) as (f & _ & _ & _ & Hoth). apply Hoth. congruence.
+  Qed.
+
+  (* any history: after the run, the output of an extraction that no LATER operation
+     overwrote holds exactly one snapshot, the frame that extraction took from its source *)
+  Theorem fx_run_history pre o post d d' : fx_run d (pre ++ o :: post) = Some d' ->
+    Forall (fun o' => o_out o' <> o_out o) post ->
+    exists d1 f, fx_run d pre = Some d1 /\ fx_frame d1 (o_src o) (o_k o) = Some f /\
+                 fx_get d' (o_out o) = Some [f] /\ fx_read d' (o_out o) = Some f.
+  Proof.
+    intros E Hpost. rewrite fx_run_app in E. destruct (fx_run d pre) as [d1|]; [|discriminate].
+    cbn [fx_run] in E. destruct (fx_step d1 o) as [d2|] eqn:E2; [|discriminate].
+    unfold fx_step in E2. destruct (fx_extract_spec _ _ _ _ _ E2) as (f & Hf & Hg & _ & _).
+    exists d1, f. split; [reflexivity|]. split; [exact Hf|].
+    assert (Hk : fx_get d' (o_out o) = Some [f]) by (rewrite (fx_run_untouched post d2 d' _ E Hpost); exact Hg).
+    split; [exact Hk|]. unfold fx_read. now rewrite Hk.
+  Qed.
+
+  (* ... in particular reading the output right after ANY sequence of extractions returns
+     the frame of the last one, whatever the earlier ones left in the file *)
+  Theorem fx_run_last ops o d d' : fx_run d (ops ++ [o]) = Some d' ->
+    exists d1 f, fx_run d ops = Some d1 /\ fx_frame d1 (o_src o) (o_k o) = Some f /\
+                 fx_get d' (o_out o) = Some [f] /\ fx_read d' (o_out o) = Some f.
+  Proof. intros E. apply (fx_run_history ops o [] d d' E). constructor. Qed.
+
+  Lemma fx_trace_run ops : forall d d', fx_run d ops = Some d' -> ops <> [] ->
+    last (fx_trace d ops) None = Some d'.
+  Proof.
+    induction ops as [|o r IH]; intros d d' E Hne; [congruence|]. cbn [fx_run fx_trace] in *.
+    destruct (fx_step d o) as [d1|]; [|discriminate]. destruct r as [|o2 r].
+    - cbn in *. exact E.
+    - specialize (IH d1 d' E ltac:(discriminate)). cbn [fx_trace] in *.
+      destruct (fx_step d1 o2); exact IH.
+  Qed.
+End ExtractHistoryP.
+
+(* opening the output for appending breaks it as soon as the output exists: two
+   extractions into one name, and the reader returns the frame of the FIRST *)
+Theorem fx_append_refuted : exists (d d' : fx_dir nat) o1 o2 f,
+  fx_run_append d [o1; o2] = Some d' /\ o_out o1 = o_out o2 /\
+  fx_frame d (o_src o2) (o_k o2) = Some f /\ fx_read d' (o_out o2) <> Some f /\
+  fx_get d' (o_out o2) <> Some [f].
+Proof.
+  exists [(0, [10; 11])]%nat, [(0, [10; 11]); (1, [10; 11])]%nat, (mkOp 0 0 1), (mkOp 0 1 1), 11%nat.
+  repeat split; try reflexivity; cbn; discriminate.
+Qed.
+
+(* the text level for the extended-xyz engines: the file written for the frame, read by
+   _read_configuration (first snapshot yielded), is the frame; with a stale frame in front
+   (append) it is the stale one *)
+Theorem fx_xyz_text {L} (count_of : L -> option nat) (f : xframe) : xf_ok count_of f ->
+  xyz_extract count_of (concat (map xf_block [f])) 0 = Some (xf_snap f) /\
+  read_snapshots count_of (concat (map xf_block [f])) = Some [xf_snap f].
+Proof.
+  intros H. split.
+  - rewrite xyz_extract_frame_k by (constructor; [exact H|constructor]). reflexivity.
+  - rewrite read_snapshots_blocks by (constructor; [exact H|constructor]). reflexivity.
+Qed.
+Theorem fx_xyz_text_appended {L} (count_of : L -> option nat) (stale f : xframe) :
+  xf_ok count_of stale -> xf_ok count_of f ->
+  xyz_extract count_of (concat (map xf_block [stale; f])) 0 = Some (xf_snap stale).
+Proof.
+  intros H1 H2. rewrite xyz_extract_frame_k by (repeat constructor; assumption). reflexivity.
+Qed.
